@@ -8,6 +8,7 @@ import (
 	"strconv"
 
 	"verif/engine/check"
+	"verif/engine/symex"
 )
 
 func main() {
@@ -33,7 +34,9 @@ func main() {
 		OnlyEntry: *entry, NoReplay: *noReplay, Workers: *workers}
 	switch cmd {
 	case "run":
-		os.Exit(check.Run(cfg))
+		rc := check.Run(cfg)
+		symex.DumpSites()
+		os.Exit(rc)
 	case "replay":
 		os.Exit(check.ReplayDir(cfg, arg))
 	}
